@@ -406,6 +406,20 @@ def install(eng):
         return s_
     m(r'^(std|alloc)::vec::from_elem$', m_from_elem)
 
+    def m_opt_replace(eng, args, ctx):
+        c = args[0].cell
+        old = c.get(eng)
+        c.set(eng, opt(eng, old.ty if isinstance(old, EnumV) else 'Option', args[1]))
+        return old
+    m(r'^(std::option::|core::option::)?Option::replace$', m_opt_replace)
+
+    def m_opt_map_or(eng, args, ctx):
+        e_, d, f = args
+        if variant_is(eng, e_, 0):
+            return d
+        return eng.call_value(ctx.frame, f, [payload0(eng, e_, 'Some')])
+    m(r'^(std::option::|core::option::)?Option::map_or$', m_opt_map_or)
+
     def m_opt_take(eng, args, ctx):
         c = args[0].cell
         e = c.get(eng)
